@@ -133,29 +133,6 @@ func fromResultPatch(r result.Patch) patch {
 	return p
 }
 
-func runCP(k int, ni bool, vulns []int, ps []patch) string {
-	return hx.Guard(func() string {
-		var all []result.Patch
-		for _, p := range ps {
-			all = append(all, toResultPatch(p))
-		}
-		var ids []string
-		for _, v := range vulns {
-			ids = append(ids, vid(v))
-		}
-		chosen := guidedremediation.VerifChoosePatches(all, k, ni)
-		var sel []string
-		for _, c := range chosen {
-			sel = append(sel, encPatch(fromResultPatch(c)))
-		}
-		var un []string
-		for _, v := range guidedremediation.VerifComputeVulnsResult(ids, all) {
-			un = append(un, fmt.Sprintf("%d:%s", vnum(v.ID), hx.B(v.Unactionable)))
-		}
-		return "sel=" + hx.Join(sel, ";") + " un=" + hx.Join(un, ",")
-	})
-}
-
 func genCP(r *rand.Rand) (int, bool, []int, []patch) {
 	n := r.Intn(7)
 	var ps []patch
@@ -209,67 +186,6 @@ func decReqs(s string) []kv {
 		out = append(out, kv{k, a, v})
 	}
 	return out
-}
-
-func npmManifest(dir string, reqs []kv) guidedremediation.VerifManifest {
-	var sb strings.Builder
-	sb.WriteString("{\"name\": \"root\", \"version\": \"1.0.0\", \"dependencies\": {")
-	for i, r := range reqs {
-		if i > 0 {
-			sb.WriteString(", ")
-		}
-		if r.a == 0 {
-			fmt.Fprintf(&sb, "\"pkg%d\": \"1.0.%d\"", r.k, r.v)
-		} else {
-			fmt.Fprintf(&sb, "\"al%d\": \"npm:pkg%d@1.0.%d\"", r.a, r.k, r.v)
-		}
-	}
-	sb.WriteString("}}\n")
-	must(os.WriteFile(filepath.Join(dir, "package.json"), []byte(sb.String()), 0o644))
-	rw, err := guidedremediation.VerifNpmReadWriter()
-	must(err)
-	m, err := rw.Read("package.json", scalibrfs.DirFS(dir))
-	must(err)
-	return m
-}
-
-func runCD(oldV, newV []int, oldR, newR []kv) string {
-	return hx.Guard(func() string {
-		d1, err := os.MkdirTemp(scratch, "a")
-		must(err)
-		defer os.RemoveAll(d1)
-		d2, err := os.MkdirTemp(scratch, "b")
-		must(err)
-		defer os.RemoveAll(d2)
-		ids := func(vs []int) []string {
-			var out []string
-			for _, v := range vs {
-				out = append(out, vid(v))
-			}
-			return out
-		}
-		oldRes := guidedremediation.VerifMakeResolved(npmManifest(d1, oldR), ids(oldV))
-		newRes := guidedremediation.VerifMakeResolved(npmManifest(d2, newR), ids(newV))
-		p := guidedremediation.VerifConstructPatches(oldRes, newRes)
-		q := fromResultPatch(p)
-		var ups []string
-		for _, u := range p.PackageUpdates {
-			n, _ := strconv.Atoi(strings.TrimPrefix(u.Name, "pkg"))
-			f := "-"
-			if u.VersionFrom != "" {
-				f = strings.TrimPrefix(u.VersionFrom, "1.0.")
-			}
-			a := 0
-			if ka, ok := u.Type.GetAttr(dep.KnownAs); ok {
-				a, _ = strconv.Atoi(strings.TrimPrefix(ka, "al"))
-			}
-			ups = append(ups, fmt.Sprintf("%d.%d:%s:%s", n, a, f, strings.TrimPrefix(u.VersionTo, "1.0.")))
-		}
-		sort.Strings(ups)
-		slices.Sort(q.fixed)
-		slices.Sort(q.intro)
-		return "fixed=" + dots(q.fixed) + " intro=" + dots(q.intro) + " ups=" + hx.Join(ups, ",")
-	})
 }
 
 func genCD(r *rand.Rand) ([]int, []int, []kv, []kv) {
@@ -562,7 +478,56 @@ func subset(r *rand.Rand, pool []string, atLeast int) []string {
 	return out
 }
 
+// genE2ESideEffect: a package the configuration forbids to touch (level None) sits below a package that may be patched;
+// the patch of the upper package brings a newer version of the pinned one and so fixes ITS vulnerability as a side effect.
+// MaxUpgrades = 1.  (Maven/override: both vulnerabilities in one record or in two; npm/relax: the direct requirement is relaxed.)
+func genE2ESideEffect(r *rand.Rand) e2eCase {
+	c := e2eCase{Eco: "n", Table: e2eNpmVers, MaxUpgrades: 1, NoIntroduce: false, DevDeps: true, MaxDepth: -1, Levels: map[string]int{}}
+	top, tee := "alpha", "tee"
+	if r.Intn(2) == 0 {
+		c.Eco, c.Table = "m", e2eMvnVers
+		top, tee = "g:alpha", "g:tee"
+	}
+	req := func(v string) string {
+		if c.Eco == "m" {
+			return v
+		}
+		return []string{v, "^" + v, "~" + v}[r.Intn(3)]
+	}
+	n := len(c.Table)
+	k := 1 + r.Intn(n-2) // first top version that brings the fixed tee
+	j := 1 + r.Intn(n-1) // tee version brought from there on
+	p := remx.Pkg{Name: top, Versions: c.Table, Deps: map[string][]string{}}
+	for i, v := range c.Table {
+		t := c.Table[0]
+		if i >= k {
+			t = c.Table[j]
+		}
+		if c.Eco == "m" {
+			p.Deps[v] = []string{tee + "@" + t}
+		} else {
+			p.Deps[v] = []string{tee + "@" + []string{t, "~" + t}[r.Intn(2)]}
+		}
+	}
+	c.Pkgs = []remx.Pkg{{Name: tee, Versions: c.Table}, p}
+	c.Root = []rootDep{{Name: top, Req: req(c.Table[0])}}
+	if c.Eco == "m" || r.Intn(2) == 0 {
+		// one record over both packages (Maven override only touches packages that are vulnerable themselves)
+		c.Vulns = []remx.VulnSpec{{ID: vid(1), Pkg: top, Introduced: -1, Fixed: k, Last: -1}, {ID: vid(2), Pkg: tee, Introduced: -1, Fixed: j, Last: -1}}
+	} else {
+		c.Vulns = []remx.VulnSpec{{ID: vid(2), Pkg: tee, Introduced: -1, Fixed: j, Last: -1}}
+	}
+	c.Levels[tee] = 3 // None: the transitive package must not be touched
+	if r.Intn(3) == 0 {
+		c.Levels[top] = r.Intn(2)
+	}
+	return c
+}
+
 func genE2E(r *rand.Rand) e2eCase {
+	if r.Intn(4) == 0 {
+		return genE2ESideEffect(r)
+	}
 	c := e2eCase{Eco: "n", Table: e2eNpmVers, MaxUpgrades: []int{1, 1, 1, 0, 2}[r.Intn(5)], NoIntroduce: r.Intn(4) == 0, DevDeps: r.Intn(4) != 0, MaxDepth: []int{-1, -1, 1, 2}[r.Intn(4)], Levels: map[string]int{}}
 	names := []string{"alpha", "socket.io", "@scope/beta", "tee"}
 	if r.Intn(2) == 0 {
@@ -688,6 +653,9 @@ func main() {
 			t := strings.Split(l, " ")
 			switch t[0] {
 			case "cp":
+				if !haveShim {
+					continue
+				}
 				k, _ := strconv.Atoi(t[1])
 				var ps []patch
 				if t[4] != "-" {
@@ -697,6 +665,9 @@ func main() {
 				}
 				emitCP(k, t[2] == "1", ints(t[3]), ps)
 			case "cd":
+				if !haveShim {
+					continue
+				}
 				emitCD(ints(t[1]), ints(t[2]), decReqs(t[3]), decReqs(t[4]))
 			case "e2e":
 				c := parseE2E(t)
@@ -709,12 +680,16 @@ func main() {
 	}
 	r := hx.Rng(o)
 	for i := 0; i < o.N; i++ {
-		k, ni, vulns, ps := genCP(r)
-		emitCP(k, ni, vulns, ps)
+		k, ni, vulns, ps := genCP(r) // drawn also without shim, so that the end-to-end cases are the same in both builds
+		if haveShim {
+			emitCP(k, ni, vulns, ps)
+		}
 	}
 	for i := 0; i < o.N; i++ {
 		a, b, c, d := genCD(r)
-		emitCD(a, b, c, d)
+		if haveShim {
+			emitCD(a, b, c, d)
+		}
 	}
 	for i := 0; i < o.N/4; i++ {
 		c := genE2E(r)
